@@ -221,10 +221,8 @@ static int upipe_block_to_sound_set_flow_def(struct upipe *upipe,
     if (flow_def == NULL)
         return UBASE_ERR_INVALID;
 
-    if (unlikely(!ubase_check(uref_flow_match_def(flow_def, "block.")))) {
-        uref_free(flow_def);
+    if (unlikely(!ubase_check(uref_flow_match_def(flow_def, "block."))))
         return UBASE_ERR_INVALID;
-    }
 
     flow_def = uref_dup(upipe_block_to_sound->flow_def_config);
     if (unlikely(flow_def == NULL)) {
